@@ -19,6 +19,15 @@ META = {
 }
 
 
+def replica_bases(tier, rng):
+    """Cold first use of one registry by two threads, next to another registry."""
+    files = {name: {'name': 'file:' + name, 'kind': 'file', 'db': name, 'path': path} for name, path in D.dat_files()}
+    pairs = [('isbn', 'cfi'), ('imsi', 'at/postleitzahl'), ('cn/loc', 'nz/banks'), ('gs1_ai', 'iban'), ('eu/nace', 'be/banks')]
+    if tier == 'quick':
+        pairs = rng.sample(pairs, 2)
+    return [[files[a], files[b]] for a, b in pairs if a in files and b in files]
+
+
 def shards(tier):
     out = []
     for name, path in D.dat_files():
